@@ -253,10 +253,27 @@ class Roles:
         if not self.connection_closures:
             self.errors.append("anchor-missing: per-connection closure (closure submitted to the pool by the accept loop)")
         # per-connection entry points: functions generic over the transport (call Read::read and Write::write unresolved)
+        # a parameter whose type is a generic transport (`impl Read + Write ...`), read from and written to - directly or through helpers
         self.connection_fns = []
+        self.transport_helpers = set()
+        def touches(fn, what):
+            return any((t.get("callee") or "").startswith(what) and not t.get("is_resolved") for _, t in fn.calls())
         for fn in F.rws_fns():
-            names = {t.get("callee") for _, t in fn.calls() if not t.get("is_resolved")}
-            if "std::io::Read::read" in names and ("std::io::Write::write" in names or "std::io::Write::write_all" in names):
+            if fn.kind == "Promoted":
+                continue
+            if touches(fn, "std::io::Read::read") or touches(fn, "std::io::Write::write"):
+                self.transport_helpers.add(fn.def_)
+        for fn in F.rws_fns():
+            if fn.kind == "Promoted" or fn.nargs < 1:
+                continue
+            tys = [fn.local_ty(i) for i in range(1, fn.nargs + 1)]
+            generic_rw = any(ty.startswith("impl ") and "Read" in ty and "Write" in ty for ty in tys)
+            if not generic_rw:
+                continue
+            sub = G.reachable([fn.def_], kinds=("call", "trait-cha"))
+            reads = any(x in self.transport_helpers and touches(F.fns[x], "std::io::Read::read") for x in sub if x in F.fns)
+            writes = any(x in self.transport_helpers and touches(F.fns[x], "std::io::Write::write") for x in sub if x in F.fns)
+            if reads and writes:
                 self.connection_fns.append(fn.def_)
         self.connection_fns.sort()
         if len(self.connection_fns) < 2:
